@@ -95,7 +95,9 @@ ByType ==
     BigBytes |-> {Seq_([i \in 1..n |-> I("7")]) : n \in {255, 256, 65535, 65536}},
     TupI64I64 |-> {Seq_(<<I(a), I(b)>>) : a \in {"0", "-9223372036854775808"}, b \in {"1", "9223372036854775807"}},
     ArrI64x2 |-> {Seq_(<<I(a), I(b)>>) : a \in {"0", "-9223372036854775808"}, b \in {"1", "9223372036854775807"}},
-    MapI64Str |-> {Map_(<<>>)} \cup {Map_(<< <<I(x), S(<<118>>)>> >>) : x \in SmallI64} \cup {Map_(<< <<I("1"), S(<<>>)>>, <<I("4294967296"), S(<<195, 169>>)>> >>)},
+    MapI64Str |-> {Map_(<<>>)} \cup {Map_(<< <<I(x), S(<<118>>)>> >>) : x \in SmallI64} \cup {Map_(<< <<I("1"), S(<<>>)>>, <<I("4294967296"), S(<<195, 169>>)>> >>)}
+                  \* keys that mirror each other around zero, beyond every integer width of the wire format
+                  \cup {Map_(<< <<I(x), S(<<112>>)>>, <<I("-" \o x), S(<<109>>)>> >>) : x \in {"1", "255", "2147483647", "2147483648", "3000000000", "4294967296", "1099511627776", "9223372036854775807"}},
     HMapStrU64 |-> {Map_(<< <<S(<<107>>), I(x)>> >>) : x \in U64s},
     Plain |-> Plains,
     Nested |-> {St(<< <<"inner", p>>, <<"list", Seq_(l)>>, <<"tag", t>> >>) : p \in {x \in Plains : x.struct[1][2].int = "0"}, l \in {<<>>, <<Plain("9223372036854775807", <<104>>, NoneV, <<>>)>>}, t \in Shapes},
